@@ -109,6 +109,12 @@ func c15Run(rc *RunCtx) *Violation {
 			return rc.Viol("helper.tags", fmt.Sprintf("ExtractInstanceTags(%s) = (ours %#x, theirs %#x, ok true) for a version 2 message, which carries no instance tags", short(v2), ours, theirs), map[string]string{"kind": "v2-message"})
 		}
 	}
+	// a tag is 8 hex digits: no sign, nothing that only fits after being cut down to 32 bits
+	for _, f := range []string{"?OTR|-fffff00|00000100,00001,00002,QUJD,", "?OTR|00000100|-fffff00,00001,00002,QUJD,", "?OTR|+0000100|00000200,00001,00002,QUJD,"} {
+		if ours, theirs, ok := otr3.ExtractInstanceTags([]byte(f)); ok {
+			return rc.Viol("helper.tags", fmt.Sprintf("ExtractInstanceTags(%q) = (ours %#x, theirs %#x, ok true): the fragment carries no such tags", f, ours, theirs), map[string]string{"kind": "signed-tag"})
+		}
+	}
 	if _, _, ok := otr3.ExtractInstanceTags([]byte("?OTR,00001,00002,QUJD,")); ok {
 		return rc.Viol("helper.tags", "ExtractInstanceTags reports tags for a version 2 fragment", map[string]string{"kind": "v2-fragment"})
 	}
